@@ -102,7 +102,8 @@ func svPreVote(pre *svVotePre, kind int) func(e *svEnv) {
 					sv.Unreachable("validator")
 				}
 				if pre.where != 1 && pre.where != 5 {
-					if quick && i == 2 {
+					if i == 2 {
+						// C has not voted (in every tier: a third free opinion multiplies the paths by 4 for no new behaviour; the tally harness covers all combinations)
 						op = governance.OPIN_UNKNOWN
 					} else if svLean && pre.where == 0 {
 						op = governance.VoteOpinion(sv.Choice("prop.opinion"+svPartyName(i), 2)) // unknown / yes
@@ -183,7 +184,7 @@ func svTally(pre *svVotePre, ops []governance.VoteOpinion) governance.VoteResult
 
 // SV_C14_vote_expire_finalize: one vote / expire / finalise transaction.
 //
-// sv:bounds proposal (general type) in voting, funding, passed, failed (voted no), finalized or failed (cancelled) stage; pass percentage 51, 67 or 75; validator snapshot of 2-3 parties with power table {1,1,2} (thorough: also {1,1,1}, {33,33,34}, {49,2,49}); recorded opinions unknown/yes/no/give-up consistent with the stage (quick: C has not voted; finalise from the vectors yes,yes / no,no); pass percentage quick 51 or 75; voting deadline arbitrary (any relation to block height 20); escrowed total arbitrary; the shared proposal store's selected stage prefix (in-memory residue of the previous handler) active, failed or passed; kind: vote (any validator field and voter, opinion yes/no/give-up), expire, finalise (delivered twice); mempool-admitted regime
+// sv:bounds proposal (general type) in voting, funding, passed, failed (voted no), finalized or failed (cancelled) stage; pass percentage 51, 67 or 75; validator snapshot of 2-3 parties with power table {1,1,2} (thorough: also {1,1,1}, {33,33,34}, {49,2,49}); recorded opinions of A and B unknown/yes/no/give-up consistent with the stage, C has not voted (quick: finalise from the vectors yes,yes / no,no); pass percentage quick 51 or 75; voting deadline arbitrary (any relation to block height 20); escrowed total arbitrary; the shared proposal store's selected stage prefix (in-memory residue of the previous handler) active, failed or passed; kind: vote (any validator field and voter, opinion yes/no/give-up), expire, finalise (delivered twice); mempool-admitted regime
 // sv:outside configuration-update proposals (the update function table); more than 3 validators; validator-set changes between snapshot and vote; the BeginBlock queueing of internal transactions (the handlers are driven directly, as a mempool submission does)
 // sv:goal a vote succeeds only while voting and not after the deadline, only for a snapshotted validator, changes only that validator's opinion, and moves the proposal to passed / failed exactly when the exact-integer tally over the recorded opinions says so; expire succeeds only for a proposal in voting whose deadline has passed and moves it to failed (insufficient votes); finalise succeeds with a distribution only for a completed proposal whose tally is decided, empties the escrow, credits nobody more than the escrow held in total, debits nobody, moves it to finalized, and a second finalise changes nothing
 func SV_C14_vote_expire_finalize() {
